@@ -126,7 +126,7 @@ Definition ok_local (p l : str) : bool :=
 
 (** an IRI that ends up as a class / node / predicate identifier *)
 Definition ok_iri (i : str) : bool :=
-  word i && negb (has_corners i) && negb (prefixb (Str "_:") i).
+  word i && negb (str_eqb i []) && negb (has_corners i) && negb (prefixb (Str "_:") i).
 
 Definition wf_node (n : node) : bool :=
   match nk n with
